@@ -1,3 +1,8 @@
 import OAuth2Model.Model.Form
 import OAuth2Model.Model.Base64
 import OAuth2Model.Model.Request
+import OAuth2Model.Generated.ClientOps
+import OAuth2Model.Generated.ErrorTables
+import OAuth2Model.Generated.Consts
+import OAuth2Model.Generated.Inventory
+import OAuth2Model.Model.ClientSem
